@@ -113,5 +113,144 @@ def run(repo='/repo', tier='quick'):
                     ok = ('port_parsed', '>', '0') in facts and ('port_parsed', '<', '65536') in facts and ('port_parsed', '>=', '0') in facts and P.K(a['r']) == 'port_parsed'
                     res.check(ok, 'C13.b', fname + ':valid-range', 'a port is accepted exactly under 0 < port_parsed < 65536', 'the accepted port range is not 1..65535 (guards: %s)' % [x for x in facts if x[0] == 'port_parsed'], a['loc'])
         res.check(nv == 1, 'C13.b', fname + ':one-accepting-arm', 'one accepting arm', '%d arms store a parsed port' % nv, g.loc)
+    c13d(db, res)
     res.assumptions.append('that the components partition the target (re-joining reproduces it) is a statement about values and is not decided')
     return res
+
+
+def c13d(db, res):
+    """Partition of the authority: htp_parse_uri splits windows of the target with memchr().  For the components to re-join to
+    the target, the bytes in front of the delimiter that memchr() found (or the whole window when it found none) must end up
+    in a component: on every path some later bstr_dup_mem() starts at the window's start.  Pointers are evaluated along each
+    path as linear forms over the symbols of the function (data, start, the memchr results), so `hostname_start = m + 1`
+    moves the window."""
+    res.rule('C13.d', 'split completeness: for every window (S, N) that htp_parse_uri searches with memchr, on every path a later component copy starts at S, or starts before S and reaches the delimiter (the whole window when there is none): the bytes in front of the delimiter are not dropped. Pointers and lengths are evaluated along each path as linear forms; a memchr result is at or after the start of its window')
+    f = db.get('htp_parse_uri')
+    sites = []
+    for b, i, st in f.stmts():
+        for x in nodes(st, lambda y: y.get('k') in ('assign', 'decl')):
+            items = [(P.K(x['l']), x['r'])] if x['k'] == 'assign' and x['op'] == '=' else [(v['name'], v['init']) for v in x.get('vars', []) if 'init' in v] if x['k'] == 'decl' else []
+            for L, r in items:
+                if P.call_name_of(r) == 'memchr':
+                    sites.append((b, i, L, strip(r)))
+    res.floor('C13.d', 'memchr splits in htp_parse_uri', len(sites), 4)
+
+    def ev(e, env):
+        e = strip(e)
+        if e is None:
+            return None
+        k = e.get('k')
+        if k == 'lit':
+            return {'': e['v']}
+        if k == 'var':
+            return dict(env.get(e['name'], {e['name']: 1}))
+        if k == 'bin' and e['op'] in ('+', '-'):
+            l, r = ev(e['l'], env), ev(e['r'], env)
+            if l is None or r is None:
+                return None
+            out = dict(l)
+            for t, c in r.items():
+                out[t] = out.get(t, 0) + (c if e['op'] == '+' else -c)
+            return {t: c for t, c in out.items() if c != 0}
+        return None
+    pathstore = lambda st: bool(P.assigns_field(st, 'path'))
+    # one enumeration of the paths from the entry to the store of the path component (the authority block lies before it);
+    # exits through a failed allocation are left out
+    paths = []
+    for atoms, events, end, seq in P.enum_paths_seq(f, (f.entry, -1), stop=lambda bb, ii, st: pathstore(st), max_paths=100000):
+        if end[0] == 'stop' or (end[0] == 'return' and (lit_name(P.ret_value(end[3])) == 'HTP_OK' or is_lit(P.ret_value(end[3]), 1))):
+            paths.append(seq)
+    all_verdicts = {(sb, si): {} for sb, si, mvar, call in sites}
+    for seq in paths:
+        at = {}
+        for n_, x in enumerate(seq):
+            if x[0] == 'stmt' and (x[1], x[2]) in all_verdicts and (x[1], x[2]) not in at:
+                at[(x[1], x[2])] = n_
+        if not at:
+            continue
+        env, fresh = {}, [0]
+        open_ = {}                                   # site -> [S_eval, arm, stored, result symbol, N_eval]
+        wins = {}                                    # memchr result symbol -> start of the window it was searched in (result >= start)
+        dups = []                                    # (position in path, start, length) of every component copy
+        mvars = {(sb, si): mvar for sb, si, mvar, call in sites}
+
+        def nonneg(lf):
+            """lf >= 0 ?  memchr results are replaced by window start + d with d >= 0"""
+            if lf is None:
+                return False
+            lf = dict(lf)
+            for _ in range(6):
+                hit = [t for t in lf if t in wins and lf[t] != 0]
+                if not hit:
+                    break
+                t = hit[0]
+                c = lf.pop(t)
+                for t2, c2 in (wins[t] or {}).items():
+                    lf[t2] = lf.get(t2, 0) + c * c2
+                lf['d:' + t] = lf.get('d:' + t, 0) + c
+            lf = {t: c for t, c in lf.items() if c != 0}
+            return all((t == '' or t.startswith('d:')) and c >= 0 for t, c in lf.items())
+
+        def minus(a_, b_):
+            if a_ is None or b_ is None:
+                return None
+            out = dict(a_)
+            for t, c in b_.items():
+                out[t] = out.get(t, 0) - c
+            return {t: c for t, c in out.items() if c != 0}
+
+        def plus(a_, b_):
+            return minus(a_, {t: -c for t, c in (b_ or {}).items()}) if b_ is not None else None
+        for n_, x in enumerate(seq):
+            if x[0] == 'atom':
+                for k_, o in open_.items():
+                    if o[1] == '?' and x[1][0] == mvars[k_] and x[1][2] == '0' and o[3] == env.get(mvars[k_]):
+                        o[1] = 'found' if x[1][1] == '!=' else 'not-found'
+                continue
+            st = x[3]
+            for c in nodes(st, lambda y: y.get('k') == 'call' and y.get('callee') == 'bstr_dup_mem'):
+                dups.append((n_, ev(c['args'][0], env), ev(c['args'][1], env)))
+            for y in nodes(st, lambda z: z.get('k') in ('assign', 'decl')):
+                items = [(strip(y['l']), y['r'])] if y['k'] == 'assign' and y['op'] == '=' else [({'k': 'var', 'name': v['name']}, v['init']) for v in y.get('vars', []) if 'init' in v] if y['k'] == 'decl' else []
+                for l, r in items:
+                    if l is None or l.get('k') != 'var':
+                        continue
+                    fresh[0] += 1
+                    if P.call_name_of(r) == 'memchr':
+                        name = '%s#%d' % (l['name'], fresh[0])
+                        sym = {name: 1}
+                        wins[name] = ev(strip(r)['args'][0], env)
+                        if (x[1], x[2]) in all_verdicts and l['name'] == mvars[(x[1], x[2])]:
+                            open_[(x[1], x[2])] = [wins[name], '?', False, sym, ev(strip(r)['args'][2], env), n_]
+                        env[l['name']] = sym
+                    else:
+                        v = ev(r, env)
+                        env[l['name']] = v if v is not None else {'%s#%d' % (l['name'], fresh[0]): 1}
+        for k_, o in open_.items():
+            S_, arm, _, sym, N_, at_ = o
+            for n_, A, ln in dups:
+                if n_ <= at_ or A is None or S_ is None:
+                    continue
+                if not nonneg(minus(S_, A)):
+                    continue                                  # the copy starts after the window's start
+                if arm == 'found':
+                    ok = (A == S_) or nonneg(minus(plus(A, ln), sym))   # ... starts with the window (which may be split further), or reaches the delimiter
+                else:
+                    ok = (A == S_) or nonneg(minus(plus(A, ln), plus(S_, N_)))   # ... starts with the window, or covers all of it
+                if ok:
+                    o[2] = True
+        for k_, o in open_.items():
+            all_verdicts[k_].setdefault(o[1], []).append(o[2])
+    for sb, si, mvar, call in sites:
+        ch = strip(call['args'][1])
+        delim = chr(ch['v']) if is_lit(ch) and 32 <= ch['v'] < 127 else S(ch)
+        verdicts = all_verdicts[(sb, si)]
+        ctx = 'after-bracket:' if any(a[0].endswith('[0]') and a[1] == '==' and a[2] in ('91', "'['") for a, e in P.facts_at(f, sb)) else ''
+        wkey = P.K(call['args'][0])
+        for arm, vs in sorted(verdicts.items()):
+            key = "%smemchr(%s, '%s'):%s" % (ctx, wkey, delim, arm)
+            res.check(all(vs), 'C13.d', key, 'on all %d paths a component is copied from the start of the searched window' % len(vs),
+                      "htp_parse_uri searches the window starting at %s for '%s' and, when the delimiter is %s, copies nothing that starts at the window's start: %s are dropped, so the raw components no longer re-join to the target"
+                      % (wkey, delim, 'found' if arm == 'found' else 'not found', 'the bytes in front of the delimiter' if arm == 'found' else 'all bytes of the window'), call['loc'])
+        if not verdicts:
+            res.unknown('C13.d', "%smemchr(%s, '%s')" % (ctx, wkey, delim), 'no path from the entry reaches this split within the bound', call['loc'])
